@@ -46,12 +46,22 @@ pub fn run<T: El>(c: &Case) {
   alloc::end_of_case(clean);
 }
 
+/// reads the vector an operation was invoked on, through its public API (see `alloc::PROBE_FN`)
+unsafe fn probe<T>(p: usize) -> (usize, usize, usize) {
+  let v = &*(p as *const minivec::MiniVec<T>);
+  (v.capacity(), v.as_ptr() as usize, core::mem::size_of::<T>())
+}
+
 impl<T: El> Interp<T> {
   pub fn step(&mut self, line: &str) {
     tl!("> {}", line);
     let t: Vec<&str> = line.split_whitespace().collect();
     // capacity before the op (sanctioned divergence: shrink_to above capacity panics)
     let precap = t.get(1).and_then(|r| self.vreg(r)).map(|i| self.mv(i).capacity());
+    unsafe {
+      alloc::PROBE_FN = Some(probe::<T>);
+      alloc::PROBE_PTR = t.get(1).and_then(|r| self.vreg(r)).map_or(0, |i| self.mv(i) as *mut minivec::MiniVec<T> as usize);
+    }
     let out = match self.try_exec(&t) {
       Some(o) => o,
       None => {
@@ -59,6 +69,7 @@ impl<T: El> Interp<T> {
         Out::BadOp
       }
     };
+    unsafe { alloc::PROBE_PTR = 0 };
     if out == Out::Panic {
       self.dirty = true;
     }
@@ -93,6 +104,105 @@ impl<T: El> Interp<T> {
           tl!("= {} {}", len, if good { "same" } else { "differs" });
           if len != n || !good {
             tl!("O vec-mismatch from_str len={} want={}", len, n);
+          }
+          Out::Skip
+        }
+        None => {
+          tl!("= panic");
+          Out::Panic
+        }
+      });
+    }
+    if op == "serialize_u8" {
+      // `MiniVec<u8>` (built as in `from_str`) must serialize as ONE sequence of n `u8` elements, like every other
+      // element type: the recording serializer refuses anything else (e.g. `serialize_bytes`)
+      if t.len() != 2 {
+        return None;
+      }
+      let n = crate::script::num(t[1])?;
+      if n > (1 << 20) {
+        return None;
+      }
+      let s = "a".repeat(n);
+      let mut log = crate::serde_ser::SerLog::default();
+      log.u8_mode = true;
+      log.ids.reserve(n + 16);
+      let r = scoped(|| {
+        use serde::Serialize;
+        let v = minivec::MiniVec::<u8>::from(&s[..]);
+        let ok = v.serialize(crate::serde_ser::Rec { log: &mut log, elem: false }).is_ok();
+        (v.len(), ok)
+      });
+      return Some(match r {
+        Some((len, ok)) => {
+          let good = ok && log.well_formed() && log.ids.len() == n && log.ids.iter().all(|b| *b == 97) && len == n;
+          tl!("= {} {}", len, if good { "same" } else { "differs" });
+          if !good {
+            tl!("O vec-mismatch serialize_u8 len={} elements-recorded={} well-formed={}", len, log.ids.len(), log.well_formed());
+          }
+          Out::Skip
+        }
+        None => {
+          tl!("= panic");
+          Out::Panic
+        }
+      });
+    }
+    if op == "extend_ref" {
+      // `Extend<&'a T>` for a Copy element type (u32): a vector of `pre` elements with exactly that capacity is
+      // extended BY REFERENCE from a scripted iterator (whose size_hint may lie); checked and dropped inside the op
+      if t.len() != 3 {
+        return None;
+      }
+      let pre = crate::script::num(t[1])?;
+      let mut it = crate::script::It::parse(t[2])?;
+      if pre > 4096 || it.items.len() > 4096 {
+        return None;
+      }
+      let store: Vec<u32> = it.items.iter().map(|x| x.unwrap_or(0) as u32).collect();
+      let hint = it.size_hint();
+      let want: Vec<u32> = (0..pre as u32).chain(it.until_none().into_iter().map(|x| x as u32)).collect();
+      struct RefIt<'a> {
+        store: &'a [u32],
+        script: &'a [bool],
+        pos: usize,
+        hint: (usize, Option<usize>),
+        lying: bool,
+      }
+      impl<'a> Iterator for RefIt<'a> {
+        type Item = &'a u32;
+        fn next(&mut self) -> Option<&'a u32> {
+          if self.pos < self.script.len() {
+            self.pos += 1;
+            if self.script[self.pos - 1] { Some(&self.store[self.pos - 1]) } else { None }
+          } else {
+            None
+          }
+        }
+        fn size_hint(&self) -> (usize, Option<usize>) {
+          if self.lying {
+            self.hint
+          } else {
+            let k = self.script[self.pos.min(self.script.len())..].iter().take_while(|x| **x).count();
+            (k, Some(k))
+          }
+        }
+      }
+      let script: Vec<bool> = crate::script::It::parse(t[2])?.items.iter().map(|x| x.is_some()).collect();
+      let lying = t[2].contains("]h");
+      let r = scoped(|| {
+        let mut v = minivec::MiniVec::<u32>::with_capacity(pre);
+        for i in 0..pre as u32 {
+          v.push(i);
+        }
+        v.extend(RefIt { store: &store[..], script: &script[..], pos: 0, hint, lying });
+        (v.len(), v.len() <= v.capacity() && v[..] == want[..])
+      });
+      return Some(match r {
+        Some((len, good)) => {
+          tl!("= {} {}", len, if good { "same" } else { "differs" });
+          if !good {
+            tl!("O vec-mismatch extend_ref len={} want={}", len, want.len());
           }
           Out::Skip
         }
